@@ -50,4 +50,9 @@ CLAIMED = {
   text="All ordered same-arity pairs of the enumerated well-formed universe are compared on the real code against the model of the order the property restates; the model is itself checked on every run against every in-domain row of the repository's copy of apk-tools' version.data.",
   note="Trusted base: engine/ref/apk.go; no apk binary exists in this image. Differing component counts, leading zeros and ~hash are not claimed.",
   ref="DESIGN.md 4 (C14), Appendix A.7"),
+ "C04": dict(
+  technique="bounded-exhaustive enumeration of VERS comparator shapes (every spec-valid sequence of 1..n comparators) x increasing version pools per scheme x every probe position, on the real vers.Contains against the spec's interval semantics computed with the scheme's own Compare",
+  text="Every spec-valid comparator shape up to the tier's length, for all 11 schemes and 2-3 version pools each, is evaluated on probes at, between, below and above every bound; the expected value is the reference union-of-intervals semantics over the scheme's Compare.",
+  note="n <= 4 (quick) / 6 (thorough) constraints (the property names 8); bound versions come from fixed pools that are validated as strictly increasing on every run; pypi pre-release default exclusion is part of the oracle.",
+  ref="DESIGN.md 4 (C04), Appendix A.8"),
 }
